@@ -3,18 +3,21 @@
 # runs the existing suite and the named quick checks, undoes the mutation, and writes a table.
 export GOFLAGS=-mod=mod GOPROXY=off GOSUMDB=off GOTOOLCHAIN=local
 OUT=/verif/seeded/MANUAL_MUTANTS.md
+if [ -z "${START:-}" ]; then
 echo "# One-line mutations tried by hand (tools/manual_mutants.sh)" > $OUT
 echo >> $OUT
 echo "| # | file | mutation (sed) | existing suite | checks run | fired |" >> $OUT
 echo "|---|---|---|---|---|---|" >> $OUT
+fi
 n=0
 mut() { # file sed checks...
   f=$1; e=$2; shift 2
   n=$((n+1))
+  [ $n -lt ${START:-1} ] && return
   sed -i "$e" /repo/v4/$f
   if git -C /repo diff --quiet; then echo "| $n | $f | \`$e\` | (sed matched nothing) | | |" >> $OUT; return; fi
   if ! (cd /repo/v4 && go build ./... 2>/dev/null); then suite="does not compile"; else
-    if (cd /repo/v4 && go test -vet=off -count=1 ./... >/dev/null 2>&1); then suite="passes"; else suite="FAILS"; fi; fi
+    if (cd /repo/v4 && timeout 120 go test -vet=off -count=1 -timeout 60s ./... >/dev/null 2>&1); then suite="passes"; else suite="FAILS"; fi; fi
   fired=""
   if [ "$suite" != "does not compile" ]; then
     for c in "$@"; do
